@@ -723,6 +723,19 @@ func (ma *modAnalysis) region(fn *ssa.Function, in map[*ssa.BasicBlock]bool) *mo
 				ms.fresh[md], ms.fresh[mv], ms.fresh[mc] = true, true, true
 			case *ssa.MapUpdate:
 				ma.recordMapWrite(ms, x.Map, in)
+			case *ssa.Select:
+				for _, sc := range x.States {
+					if sc.Dir == types.SendOnly {
+						if _, ok := ma.w.db.Ghosts["sent"]; ok {
+							ms.shape("G_sent").any = true
+							ms.shape("G_sent").nonCell = true
+						}
+						if _, ok := ma.w.db.Ghosts["lastSent"]; ok {
+							ms.shape("G_lastSent").any = true
+							ms.shape("G_lastSent").nonCell = true
+						}
+					}
+				}
 			case *ssa.Send:
 				if _, ok := ma.w.db.Ghosts["sent"]; ok {
 					ms.shape("G_sent").any = true
